@@ -191,8 +191,8 @@ def main():
     ck.cov["not_explored"] += [
         "inventories beyond the cfg bound (3 packages quick / 4 thorough), more than 2 purl types/names",
         "two detectors returning the same *Finding pointer; findings returned by extractors (outside the property's domain)",
-        "each scenario is run under one of 28 seed-rotated spellings (which Advisory field differs between bodies x/y: title, description, recommendation, "
-        "severity enum, type, CVSS score, nil severity; which AdvisoryID field differs between ids; idle extractors enabled or not), not under all of them",
+        "each scenario is run under one of 448 seed-rotated spellings (which Advisory field differs between bodies x/y: title, description, recommendation, "
+        "severity enum, type, CVSS score, nil severity; which AdvisoryID field differs between ids; idle extractors enabled or not, equal Extra texts, equal versions, pre-tagged findings, detectors that declare a required extractor), not under all of them",
         "extraction failures, cancellation and requirement-validation failures before the detector phase (C09/C10/C19)"]
     ck.assumptions += ["harness extractors/detectors are the only plugins; detectors return freshly allocated findings on every call",
                        "a reported finding is recognised by reflect.DeepEqual of its Advisory/Target with what the detector returned"]
